@@ -181,8 +181,10 @@ def replay_case(case):
         if got.shape != want.shape:
             res["violations"].append("%s: shapes %s / %s" % (name, got.shape, want.shape))
             return
-        sc = (np.abs(want).max() if scale is None else scale) + 1e-300
-        dev = float(np.abs(got - want).max() / sc)
+        sc = (max(np.abs(want).max(), np.abs(got).max()) if scale is None else scale) + 1e-300
+        # an array that vanishes by symmetry (all shells on one centre with equal parity, ...) holds rounding noise only:
+        # differences below 1e-12 absolute are not judged
+        dev = float(max(np.abs(got - want).max() - 1e-12, 0.0) / sc)
         res["dev"] = max(res["dev"], dev)
         if not dev <= 1e-8:
             res["violations"].append("%s is not covariant under the motion %s%s: max relative deviation %.3g"
